@@ -156,11 +156,13 @@ def _expand(helper, call, caller_names, drop_self, want_value, mode=None):
     binds = _bind(helper, call, drop_self)
     if binds is None:
         return None
+    if any(isinstance(n, (ast.Global, ast.Nonlocal)) for n in ast.walk(helper)):
+        return None      # the helper writes module / enclosing state under its own declaration: left as a call
     body = helper.body
     if body and isinstance(body[0], ast.Expr) and isinstance(body[0].value, ast.Constant) and isinstance(body[0].value.value, str):
         body = body[1:]
     if not body:
-        return None
+        body = [ast.copy_location(ast.Pass(), helper)]      # a hook with nothing but its docstring
     rets = _returns(helper)
     final = body[-1] if isinstance(body[-1], ast.Return) else None
     early = [r for r in rets if r is not final]
